@@ -67,6 +67,16 @@ func init() {
 		"math.Min": func(f *Frame, c *ssa.CallCommon, a []Val, st *State) Val {
 			return Val{T: f.u.defs.Define("fmin", Ite(App("<=", SBool, a[0].T, a[1].T), a[0].T, a[1].T))}
 		},
+		"(binary.littleEndian).PutUint64": encPut("LE64"),
+		"(binary.littleEndian).Uint64":    encGet("LE64"),
+		"(binary.littleEndian).PutUint32": encPut("LE32"),
+		"(binary.littleEndian).Uint32":    encGet("LE32"),
+		"(binary.bigEndian).PutUint64":    encPut("BE64"),
+		"(binary.bigEndian).Uint64":       encGet("BE64"),
+		"(binary.bigEndian).PutUint32":    encPut("BE32"),
+		"(binary.bigEndian).Uint32":       encGet("BE32"),
+		"(binary.bigEndian).PutUint16":    encPut("BE16"),
+		"(binary.bigEndian).Uint16":       encGet("BE16"),
 		"strconv.Itoa": func(f *Frame, c *ssa.CallCommon, a []Val, st *State) Val {
 			return Val{T: App("itoa", SString, a[0].T)}
 		},
@@ -131,3 +141,45 @@ var benignPrefixes = []string{
 
 // BenignPrefixes is reported in evidence.
 func BenignPrefixes() []string { return benignPrefixes }
+
+// Fixed-width integer encodings in byte buffers are modelled as records: class Enc.<kind> maps (array id, byte offset)
+// to the integer written there. Partial overlaps between differently placed fields are not modelled (the repository
+// writes fields at fixed, disjoint offsets).
+func encClass(kind string) string { return "Enc." + kind }
+
+func encPut(kind string) intrinsic {
+	intrinsicMods["(binary."+endianName(kind)+").Put"+widthName(kind)] = []string{encClass(kind)}
+	return func(f *Frame, c *ssa.CallCommon, a []Val, st *State) Val {
+		u := f.u
+		// a[0] is the receiver value, a[1] the buffer, a[2] the value
+		buf, v := a[len(a)-2].T, a[len(a)-1].T
+		cls := encClass(kind)
+		srt := ArraySort(SInt, ArraySort(SInt, SInt))
+		arr := u.heapGet(st, cls, srt)
+		id := App("s_arr", SInt, buf)
+		u.heapSet(st, cls, u.defs.Define("H_"+cls, Store(arr, id, Store(Select(arr, id), App("s_off", SInt, buf), v))))
+		return Val{}
+	}
+}
+
+func encGet(kind string) intrinsic {
+	return func(f *Frame, c *ssa.CallCommon, a []Val, st *State) Val {
+		u := f.u
+		buf := a[len(a)-1].T
+		cls := encClass(kind)
+		srt := ArraySort(SInt, ArraySort(SInt, SInt))
+		arr := u.heapGet(st, cls, srt)
+		r := u.defs.Define("dec_"+kind, Select(Select(arr, App("s_arr", SInt, buf)), App("s_off", SInt, buf)))
+		hi := map[string]string{"64": "18446744073709551615", "32": "4294967295", "16": "65535"}[kind[2:]]
+		u.assume(st, And(App("<=", SBool, IntLit(0), r), App("<=", SBool, r, BigIntLit(hi))))
+		return Val{T: r}
+	}
+}
+
+func endianName(kind string) string {
+	if kind[:2] == "LE" {
+		return "littleEndian"
+	}
+	return "bigEndian"
+}
+func widthName(kind string) string { return "Uint" + kind[2:] }
